@@ -17,3 +17,11 @@ for f in prog.functions.values():
         refs[inline.strip_targs(f.name)] = sorted(set(refs[inline.strip_targs(f.name)]) | set(r))
 json.dump(refs, open(inline.KNOWN_REFS_FILE, "w"), indent=0, sort_keys=True)
 print("%d functions with reference locals" % len(refs))
+ptrs = {}
+for f in prog.functions.values():
+    r = inline.ptr_locals(f.d)
+    if r:
+        k = inline.strip_targs(f.name)
+        ptrs[k] = sorted(set(ptrs.get(k, [])) | set(r))
+json.dump(ptrs, open(inline.KNOWN_PTRS_FILE, "w"), indent=0, sort_keys=True)
+print("%d functions with pointer locals" % len(ptrs))
